@@ -1,6 +1,6 @@
 PROPS["C04"] = dict(
     level="exploration",
-    technique="history + shadow model over the generated setter/getter table with generated arguments of the real option types; encoder/decoder inverse checked through the wire after every step, under ASan/UBSan",
+    technique="history + shadow models (field map over the generated setter/getter table; ordered option lists; per-message RFC offset images; whole-stack view equality) checked through the getters and through the wire after every step, under ASan/UBSan",
     level_text="For every layer class, random programs of 1-12 setter calls (scalar fields and typed option setters; arguments generated for the setters' real parameter types, including every option struct "
                "of the current headers) are run against a shadow map field->value; after every call every shadowed getter must return the value set, the layer's serialization must re-parse with the "
                "class's own from-buffer constructor, every shadowed getter of the re-parsed object must return the same value, and a second serialization must equal the first. DNS records and RadioTap "
